@@ -136,6 +136,7 @@ def run(ch, config, res):
     world = World(ch, cfg, client_impl=config.get("client", "real"), read_size=rsz, read_timeout=5)
     srv = world.server
     srv.data_variation = True      # challenges may be sent as literals
+    srv.cap_variation = True
     with ch.scope("srvcfg"):
         srv.oauth_challenge_on_fail = ch.srv.flag("oauth_challenge_on_fail", 1, 2)
     creds_problem = [None]
